@@ -31,6 +31,7 @@ def findings():
 def seeds():
     rows = ["| Seed | What it changes | What it needs to manifest | Caught by `./check <id> --tier quick` | How |", "|---|---|---|---|---|"]
     n = c = 0
+    notes = json.load(open(os.path.join(HERE, "seeded", "strengthened.json")))
     for f in sorted(glob.glob(os.path.join(HERE, "seeded", "*", "meta.json"))):
         m = json.load(open(f))
         v = m.get("verified", {})
@@ -42,11 +43,46 @@ def seeds():
             how = "oracle: " + esc(str(rs.get("desc")))[:200]
         elif rs.get("kind") == "broken-tie":
             how = "broken tie: " + esc(", ".join(rs.get("broken") or []))[:200]
-        note = m.get("strengthened", "")
+        note = notes.get(os.path.basename(os.path.dirname(f)), "")
         rows.append("| %s | %s | %s | %s | %s |" % (
             os.path.basename(os.path.dirname(f)), esc(str(m.get("summary", "")))[:260], esc(str(m.get("needs", "")))[:220],
             ("yes" + (" — **after strengthening**: " + esc(note) if note else "")) if v.get("caught") else "**no**", how))
     return "\n".join(rows), n, c
+
+
+def lean_files(prop):
+    """transitive IV.* imports of Props/<prop>.lean"""
+    lean = os.path.join(HERE, "lean")
+    seen, todo = set(), [os.path.join(lean, "IV", "Props", prop + ".lean")]
+    while todo:
+        q = todo.pop()
+        if q in seen or not os.path.exists(q):
+            continue
+        seen.add(q)
+        for m in re.findall(r"^import\s+(IV\.\S+)", open(q, encoding="utf-8").read(), re.M):
+            todo.append(os.path.join(lean, m.replace(".", "/") + ".lean"))
+    return sorted(seen)
+
+
+def asbuilt():
+    man = json.load(open(os.path.join(HERE, "MANIFEST.json")))
+    rows = ["| Id | Lean files the theorems are built from (lines) | Theorems (all discharged, axioms ⊆ propext / Classical.choice / Quot.sound) | Correspondence streams of a quick run (compared cases) | Oracle cases (distinct non-trivial) | Quick wall |",
+            "|---|---|---|---|---|---|"]
+    for c in man["checks"]:
+        pid = c["property_id"]
+        try:
+            ev = json.load(open(os.path.join(HERE, "evidence", pid + ".json")))
+        except Exception:
+            continue
+        cov = ev["coverage"]
+        files = lean_files(pid)
+        fl = ", ".join("%s (%d)" % (os.path.relpath(f, os.path.join(HERE, "lean", "IV")).replace(".lean", ""), sum(1 for _ in open(f, encoding="utf-8"))) for f in files)
+        st = "; ".join("%s %d" % (k, v["compared"]) for k, v in sorted(cov.get("correspondence_streams", {}).items()) if not k.startswith("seed-") and not k.startswith("hashseed-"))
+        hs = [v["compared"] for k, v in cov.get("correspondence_streams", {}).items() if k.startswith("seed-") or k.startswith("hashseed-")]
+        if hs:
+            st += "; %d hash-seed streams x %d" % (len(hs), hs[0])
+        rows.append("| %s | %s | %d | %s | %d (%d) | %.0f s |" % (pid, fl, cov.get("obligations", 0), esc(st), cov.get("evaluations", 0), cov.get("distinct_nontrivial", 0), ev.get("wall_s", 0)))
+    return "\n".join(rows)
 
 
 def main():
@@ -56,6 +92,7 @@ def main():
     sd, ns, nc = seeds()
     blocks = {"FIXED": "%d defects repaired by `fix:` commits:\n\n%s" % (nf, fx),
               "KNOWN": "%d known findings (recorded, not repaired):\n\n%s" % (nk, kn),
+              "ASBUILT": asbuilt(),
               "SEEDS": "%d seeded changes kept, %d caught by the quick tier as of the last verification:\n\n%s" % (ns, nc, sd)}
     for k, v in blocks.items():
         b, e = "<!-- BEGIN %s -->" % k, "<!-- END %s -->" % k
